@@ -862,6 +862,7 @@ def analyse(ctx, replace=None, only=None):
 
 
 MUTANTS = [dict(_m, scope={"stream": True}) for _m in cbor_stream.MUTANTS] + [
+    {"name": "negative-infinity-written-as-positive", "file": "source/cbor.c", "expect": "NARROW", "old": "        aws_cbor_encoder_write_single_float(encoder, (float)value);\n        return;", "new": "        aws_cbor_encoder_write_single_float(encoder, isnan(value) ? NAN : INFINITY);\n        return;"},
     {"name": "float-range-guard-admits-2-pow-63", "file": FILE, "expect": "NARROW", "old": "    if (value < (double)INT64_MAX && value >= (double)INT64_MIN) {", "new": "    if (value <= (double)INT64_MAX && value >= (double)INT64_MIN) {"},
     {"name": "type-only-position-read-before-reserve", "file": FILE, "expect": "ROOM",
      "old": "    /* All inf start takes 1 byte only */\n    aws_byte_buf_reserve_smart_relative(&encoder->encoded_buf, 1);\n    size_t encoded_len = 0;\n    switch (type) {\n        case AWS_CBOR_TYPE_INDEF_BYTES_START:\n            encoded_len = cbor_encode_indef_bytestring_start(\n                s_get_encoder_current_position(encoder), s_get_encoder_remaining_len(encoder));",
